@@ -159,6 +159,20 @@ class HistGen:
             cell.append("funds=" + fmode)
             op = w.op_swap_raw(actor, p, "direct", named, named_amt, None, 0, to=self.maybe_to(actor),
                                funds_override=sorted(funds))
+        if rng.random() < 0.12:
+            # kind confusion: one of the pair's assets named by its exact identifier under the OTHER kind
+            real = rng.choice(p.assets)
+            fake = ("t", real[1]) if real[0] == "n" else ("n", real[1])
+            amt = rel_amount(rng, p.reserves(led)[p.idx(real)], w.scale_bits, cap=1 << 100)
+            if fake[0] == "n":
+                funds = [[fake[1], str(amt)]] if (fake[1] in w.addr_denoms and rng.random() < 0.8) else []
+                op = w.op_swap_raw("attacker", p, "direct", fake, amt, None, 0, to=self.maybe_to("attacker"), funds_override=sorted(funds))
+            else:
+                op = w.op_swap_raw("attacker", p, "direct", fake, amt, None, 0, to=self.maybe_to("attacker"),
+                                   funds_override=sorted([[w.natives[0][1], "1"]] if rng.random() < 0.5 else []))
+            op["sem"]["cell"] = "direct/kind_confusion/" + fake[0]
+            op["sem"]["malformed_gen"] = True
+            return op, []
         cell.append("named=" + ("a%d" % p.idx(named) if named in p.assets else ("rogue" if named[1] == w.rogue else "foreign")))
         op["sem"]["cell"] = "/".join(cell)
         op["sem"]["malformed_gen"] = True
@@ -232,7 +246,17 @@ class HistGen:
         if mode == "wrong_asset":
             others = [a for a in w.all_assets() if a not in p.assets]
             op = w.op_provide(actor, p, d)
-            if others:
+            if rng.random() < 0.5:
+                # kind confusion: a pair asset named by its identifier under the other kind (no coins for it)
+                k = rng.randrange(2)
+                real = p.assets[k]
+                fake = ("t", real[1]) if real[0] == "n" else ("n", real[1])
+                for a_ in op["msg"]["provide_liquidity"]["assets"]:
+                    if a_["info"] == ainfo(real):
+                        a_["info"] = ainfo(fake)
+                op["funds"] = [f for f in op["funds"] if f[0] != real[1]]
+                op["sem"]["funds"] = [(d_, int(a_)) for d_, a_ in op["funds"]]
+            elif others:
                 op["msg"]["provide_liquidity"]["assets"][rng.randrange(2)]["info"] = ainfo(rng.choice(others))
             op["sem"]["well_formed"] = False
             op["sem"]["mal_mode"] = mode
@@ -401,6 +425,26 @@ class HistGen:
         if mode == "empty":
             hops = []
         elif mode == "dangling":
+            # candidates where every branch can be funded by its own native coin
+            cands = []
+            for p_ in w.pairs:
+                for q_ in w.pairs:
+                    if p_ is q_:
+                        continue
+                    for o1 in p_.assets:
+                        for o2 in q_.assets:
+                            a1, a2 = p_.other(o1), q_.other(o2)
+                            if o1[0] == "n" and o2[0] == "n" and o1 != o2 and a1 != a2 and a1 != o2:
+                                cands.append(((o1, a1), (o2, a2)))
+            if cands and rng.random() < 0.6:
+                long_ = [c for c in cands if c[0][1][1].startswith("factory/") and c[1][1][1].startswith("factory/")]
+                h = rng.choice(long_ if (long_ and rng.random() < 0.7) else cands)
+                amount = rel_amount(rng, 1 << w.scale_bits, w.scale_bits, 1 << 100)
+                op = w.op_route(actor, [h[0], h[1]], amount, minimum_receive=rng.choice([None, None, 0, 1]), to=rng.choice([None, "recv"]),
+                                extra_funds=[(h[1][0][1], rel_amount(rng, 1 << w.scale_bits, w.scale_bits, 1 << 100))])
+                op["sem"]["bad_mode"] = "dangling"
+                op["kind"] = "route_bad"
+                return op, [w.q_route_sim([h[0], h[1]], amount)]
             h1, h2 = rng.choice(ps), rng.choice(ps)
             hops = h1[:1] + [h for h in h2[:1] if h[1] != h1[0][1] and h[0] != h1[0][1]]
             if len(hops) == 2 and hops[0][0][0] == "n" and hops[1][0][0] == "n" and hops[0][0] != hops[1][0] and rng.random() < 0.8:
